@@ -1,3 +1,5 @@
+\* Documentation config (not a registered step): the code AS FOUND before the fix commit.
+\* TLC must report C05_NoResurrection violated (late, older prune-flagged operation stored again).
 SPECIFICATION MCSpec
 CONSTANTS
   Author = {"a1"}
@@ -5,24 +7,13 @@ CONSTANTS
   Log = {"l1"}
   MaxSeq = 3
   PrunePositions <- AllPositions
-  MaxDeliver = 6
-  MaxInFlight = 2
+  MaxDeliver = 4
+  MaxInFlight = 1
   ForgeBudget = 0
   Classes <- AllClasses
   Defect_PruneAfterFailedIngest = FALSE
   Defect_PruneFlagSkipsLatestCheck = TRUE
 INVARIANTS
-  C01_OnlyAuthenticStored
-  C01_InvalidNeverCompleted
-  C03_UniqueSeq
-  C03_Linked
   C05_NoResurrection
-PROPERTIES
-  MC_C01_RejectLeavesNoTrace
-  MC_C03_HeightMonotone
-  MC_C03_RejectsNonExtending
-  MC_C04_DeletesOnlyByValidPrune
-  MC_C04_ValidPruneDeletesExactly
-  MC_C05_NoInsertBelowPrunePoint
 VIEW NoHistView
 CHECK_DEADLOCK FALSE
